@@ -30,6 +30,8 @@ def as_seq(ex, v):
             return v
         if isinstance(k, K.Map):
             return map_view(ex, v, 'keys')
+        if isinstance(k, K.SetOf):
+            return set_elems(ex, v)
         if k == K.Dyn:
             J, JL, JD = K.dyn_sorts()
             if run.decide(J.is_JList(v.t)):
@@ -51,6 +53,8 @@ def as_seq(ex, v):
             return map_view(ex, c.sym, 'keys')
         if isinstance(c, HSet) and c.items is not None:
             return list(c.items)
+        if isinstance(c, HSet) and c.sym is not None:
+            return set_elems(ex, c.sym)
         if isinstance(c, HObj) and not isinstance(c.cls, tuple):
             if c.cls.is_subclass_of(('ext', 'builtins.dict')):
                 return as_seq(ex, c.ghost['basedict'])
@@ -884,3 +888,19 @@ def detach(ex, v):
     if isinstance(v, tuple):
         return tuple(detach(ex, x) for x in v)
     return v
+
+
+def set_elems(ex, s):
+    """iteration over a set: some enumeration of exactly its members, each once (A-set; the order is unspecified)"""
+    run = ex.run
+    run.assumed.add('A-set')
+    k = s.kind
+    sk = K.Seq(k.elem)
+    f = P.ufn(f'elems_{k.name}', [k.sort()], sk.sort())
+    r = f(s.t)
+    x = z3.Const(f'se_x_{k.elem.name}', k.elem.sort())
+    i, j = z3.Ints('se_i se_j')
+    run.axiom(P.forall([x], z3.Contains(r, z3.Unit(x)) == z3.Select(s.t, x), patterns=[z3.Select(s.t, x)]))
+    run.axiom(P.forall([i], z3.Implies(z3.And(i >= 0, i < z3.Length(r)), z3.Select(s.t, r[i])), patterns=[r[i]]))
+    run.axiom(P.forall([i, j], z3.Implies(z3.And(i >= 0, i < j, j < z3.Length(r)), r[i] != r[j]), patterns=[P.mpat(r[i], r[j])]))
+    return Sym(sk, r)
